@@ -3,7 +3,7 @@ archive_entry (setters / unsetters / copy_stat / clear / clone, all getters afte
 object and on its clone) with the real code, + the property itself evaluated on what the real code
 returned: an independent Python evaluation of the "last relevant setter wins" specification and a
 set of history-free coherence checks."""
-import copy, os
+import copy, os, sys
 import vlib
 from vlib import vfmt, vparse
 
@@ -563,8 +563,134 @@ def run_clocale(rep, exe, r, n):
             rep.violation(hit[0], hit[1], dict(correspondence="entry", case=c, impl=l[:4000], oracle_only=True, locale="C"), found_input=True)
     return len(cases), hits
 
+# ---------------------------------------------------------------- file flags: bitmaps <-> text (Entry/FflagsDefs.v)
+def fflags_table():
+    sys.path.insert(0, os.path.join(vlib.ROOT, "translators"))
+    import gen_fflags
+    return gen_fflags.rows()
+
+def fflags_parse(table, text):
+    """the specification the generator uses to aim at 'the bitmaps this text parses to' (not the judge: the model is)"""
+    st = cl = 0
+    for tok in text.replace(b"\t", b",").replace(b" ", b",").split(b","):
+        if not tok:
+            continue
+        for name, s, c in table:
+            if tok == name.encode():
+                cl |= s; st |= c
+                break
+            if tok == name.encode()[2:]:
+                st |= s; cl |= c
+                break
+    return st, cl
+
+def fflags_tostr(table, st, cl):
+    out = []
+    for name, s, c in table:
+        if st & s or cl & c: out.append(name.encode()[2:])
+        elif st & c or cl & s: out.append(name.encode())
+        else: continue
+        st &= ~(s | c); cl &= ~(s | c)
+    return b",".join(out) if out else None
+
+def fflags_oracle_factory(table, bits):
+    """the property, stated without the model: bitmaps read back are the ones last set or parsed; the text read back is the
+    text last stored, and after set_fflags it is what a FRESH entry with these bitmaps prints (never an older text)"""
+    mask = (1 << bits) - 1
+    def oracle(case, line):
+        ops, outs = vparse(case)[0], vparse(line)
+        st = cl = 0
+        text = None            # None: derived from the bitmaps
+        for k, (op, out) in enumerate(zip(ops, outs)):
+            if op[0] == 0: st, cl, text = op[1] & mask, op[2] & mask, None
+            elif op[0] == 1: (st, cl), text = fflags_parse(table, op[1]), op[1]
+            elif op[0] == 5: st, cl, text = 0, 0, None
+            elif op[0] == 3 and (out[1], out[2]) != (st, cl):
+                return ("C14:fflags:bitmaps", "step %d: archive_entry_fflags returns (%#x, %#x), the bitmaps last set or parsed are (%#x, %#x)" % (k, out[1], out[2], st, cl))
+            elif op[0] == 2:
+                want = text if text is not None else fflags_tostr(table, st, cl)
+                got = out[1][0] if out[1] else None
+                if got != want:
+                    return ("C14:fflags:text", "step %d: archive_entry_fflags_text returns %r; %s" % (k, got,
+                            ("the text last stored is %r" % want) if text is not None else
+                            ("a fresh entry with the bitmaps (%#x, %#x) last set prints %r" % (st, cl, want))))
+        return None
+    return oracle
+
+def gen_fflags_case(r, table, bits):
+    names = [n.encode() for n, _, _ in table]
+    known = 0
+    for _, s, c in table:
+        known |= s | c
+    def text():
+        k = r.choice([0, 1, 1, 2, 3, 5, 12])
+        toks = []
+        for _ in range(k):
+            x = r.random()
+            n = r.choice(names)
+            if x < 0.35: toks.append(n)
+            elif x < 0.7: toks.append(n[2:])
+            elif x < 0.8: toks.append(r.choice([b"no-such-flag", b"no", b"n", b"nono" + n[2:], n + b"x", n[:-1], n[2:].upper(), b"dump2", b"\xc3\xa9"]))
+            elif x < 0.9: toks.append(b"no" + n)          # "nonoXXXX"
+            else: toks.append(n[1:])
+        seps = [b",", b",", b" ", b"\t", b",,", b", ", b" ,\t"]
+        out = r.choice([b"", b"", b",", b" "])
+        for i, t in enumerate(toks):
+            out += t + (r.choice(seps) if i + 1 < len(toks) else r.choice([b"", b"", b",", b" ,"]))
+        return out
+    def bitmap():
+        x = r.random()
+        if x < 0.15: return 0
+        if x < 0.6:
+            v = 0
+            for _, s, c in r.sample(table, r.choice([1, 2, 3, 6])):
+                v |= s | c
+            return v
+        if x < 0.75: return known
+        if x < 0.85: return r.getrandbits(bits)
+        if x < 0.9: return (1 << bits) - 1
+        return r.choice([1 << (bits - 1), 1 << 31, 1 << 32, known ^ ((1 << bits) - 1)])
+    ops, last_text = [], None
+    for _ in range(r.choice([2, 3, 5, 8, 14])):
+        x = r.random()
+        if x < 0.25:
+            last_text = text()
+            ops.append([1, last_text, r.choice([0, 1]) if all(b < 128 for b in last_text) else 0])
+        elif x < 0.4:
+            a, b = bitmap(), bitmap()
+            if r.random() < 0.5:
+                b &= ~a
+            ops.append([0, a, b])
+        elif x < 0.5 and last_text is not None:
+            # "read the bitmaps, set the bitmaps": exactly the bitmaps the stored text parses to
+            a, b = fflags_parse(table, last_text)
+            ops.append([0, a, b])
+        elif x < 0.7: ops.append([2])
+        elif x < 0.85: ops.append([3])
+        elif x < 0.93: ops.append([4])
+        else: ops.append([5])
+        if r.random() < 0.5:
+            ops.append([2])
+    ops += [[2], [3], [4], [2], [3]]
+    return vfmt([ops])
+
+def run_fflags(rep, n):
+    table, bits, agree = fflags_table()
+    runner = vlib.build_runner("fflags")
+    exe = vlib.compile_harness("fflags", "asan")
+    r = vlib.rng(rep.seed, "C14-fflags")
+    fixed = [vfmt([[[1, b"nodump,no-such-flag", 0], [2], [3], [0, 0x40, 0], [2], [4], [2], [3]]]),
+             vfmt([[[1, b"no-such-flag", 1], [0, 0, 0], [2], [4], [2]]]),
+             vfmt([[[1, b" ,nosappend,  simmutable,", 1], [3], [0, 0x10, 0x20], [2], [3]]]),
+             vfmt([[[1, b"", 0], [2], [0, 0, 0], [2], [4], [2]]]),
+             vfmt([[[0, 0x40, 0x20], [2], [3], [2], [5], [2], [3]]]),
+             vfmt([[[0, (1 << bits) - 1, 0], [2], [3], [0, 0, (1 << bits) - 1], [2], [3], [0, 0x30, 0x30], [2]]])]
+    cases = fixed + [gen_fflags_case(r, table, bits) for _ in range(n)]
+    st = vlib.correspond(rep, "fflags", runner, exe, vlib.load_corpus("C14-fflags") + cases, oracle=fflags_oracle_factory(table, bits))
+    return len(cases), st
+
 def run(rep):
-    pr = vlib.proof_part(rep, "C14", translators=["gen_entry"])
+    pr = vlib.proof_part(rep, "C14", translators=["gen_entry", "gen_fflags"])
     runner = vlib.build_runner("entry")
     exe = vlib.compile_harness("entry", "asan", private=True)
     r = vlib.rng(rep.seed, "C14")
@@ -575,6 +701,9 @@ def run(rep):
     ninv, _ = run_invalid(rep, exe, vlib.rng(rep.seed, "C14-invalid"), 100 if rep.tier == "quick" else 6000)
     nloc, _ = run_clocale(rep, exe, vlib.rng(rep.seed, "C14-clocale"), 400 if rep.tier == "quick" else 20000)
     ninv += nloc
+    nff, stff = run_fflags(rep, 800 if rep.tier == "quick" else 60000)
+    ninv += nff
+    rep.coverage["fflags_correspondence"] = stff
     nsteps = sum(len(vparse(c)) for c in cases)
     rep.coverage.update(
         evaluations=len(cases) + len(corpus) + ninv,
@@ -592,8 +721,10 @@ def run(rep):
         "input makes the utf8 view differ from the others by design); the three stored forms of archive_mstring are not modelled",
         "time setters: arguments with t + ns/10^9 outside int64 are not generated (FIX_NS then overflows a signed integer: "
         "undefined behaviour, reported by UBSan)",
-        "not modelled: ACL entries other than the three that live in the mode, fflags bitmaps (set_fflags) and their text "
-        "conversion, mac_metadata, digests, strmode, the *_l getters, archive_entry_copy_bhfi",
+        "file flags (bitmaps, their text, the cached text of the getter, clone/clear) have their own model (Entry/FflagsDefs.v over the "
+        "regenerated fileflags[] table) and their own programs; wide texts are ASCII",
+        "not modelled: ACL entries other than the three that live in the mode, mac_metadata, digests, strmode, the *_l getters, "
+        "archive_entry_copy_bhfi",
         "glibc x86-64 layout of dev_t, 64-bit time_t/long/ino_t/nlink_t, 32-bit mode_t/uid_t/gid_t",
     ]
     vlib.proof_verdict(rep, "C14", pr)
@@ -602,6 +733,13 @@ def replay(rep, path):
     import json
     d = json.load(open(path))
     case = d["replay"]["case"]
+    if d["replay"].get("correspondence") == "fflags":
+        vlib.run_translators(["gen_fflags"])
+        table, bits, agree = fflags_table()
+        vlib.correspond(rep, "fflags", vlib.build_runner("fflags"), vlib.compile_harness("fflags", "asan"), [case],
+                        oracle=fflags_oracle_factory(table, bits))
+        rep.coverage.update(evaluations=1, distinct_nontrivial=1, samples=[case])
+        return
     vlib.run_translators(["gen_entry"])
     runner = vlib.build_runner("entry")
     exe = vlib.compile_harness("entry", "asan", private=True)
